@@ -32,6 +32,8 @@ package config
 //@   ensures [nil-config-is-an-error] c == nil ==> called(eNil)
 //@   ensures [bind-is-checked] c != nil ==> called(ts) && (len(res(ts)) == 0 ==> called(eBindEmpty)) && (len(res(ts)) != 0 ==> called(hpBind) && (res(hpBind) != nil ==> called(eBind)))
 //@   ensures [trusted-proxies-and-floodgate-checked-in-every-mode] c != nil ==> called(pp) && called(bf)
+//@   ensures [bad-compression-level-is-an-error] c != nil && !called(lite) && (c.Compression.Level < -1 || c.Compression.Level > 9) ==> called(eLevel)
+//@   ensures [bad-compression-threshold-is-an-error] c != nil && !called(lite) && c.Compression.Threshold < -1 ==> called(eThr)
 
 // The trusted proxy list must parse - whether or not the PROXY protocol is enabled.
 //@ func validateProxyProtocol
